@@ -144,6 +144,13 @@ def t_init(ctx, it):
     for i, a in enumerate(accs):
       k = spec.fresh_int("k")
       ctx.oblige("sm3.init_fn.post.Inv-established(all zeros)", a.at((k,)) == 0)
+  # the accumulators are sums of squares over the whole history: they are kept in float32 whatever the parameter dtype
+  # (a bfloat16 / float16 accumulator stops growing once it is 2^8 / 2^11 times larger than the next square)
+  for dt in (T.bfloat16, T.float32):
+    p = T.opaque("p_" + dt.name, (spec.fresh_int("e0", lo=1), spec.fresh_int("e1", lo=1)), dt)
+    st = opt.init(p)
+    ctx.oblige("sm3.init_fn.post.accumulators are float32 whatever the parameter dtype",
+               all(a.dtype == T.float32 for a in st.stats.diagonal_statistics), kind="layout", detail=f"parameter dtype {dt.name}")
 
 
 def tasks(tier):
